@@ -38,6 +38,10 @@ impl SnmpPriv for Aes128Key {
         self.key.copy_from_slice(&key[..KEY_LENGTH]);
         let mut rng = rand::rng();
         self.salt_value = rng.random();
+        #[cfg(feature = "verif")]
+        {
+            self.salt_value = crate::verif::rng_override(self.salt_value);
+        }
         Ok(())
     }
     fn has_priv(&self) -> bool {
